@@ -76,6 +76,10 @@ type DRBG struct {
 	FailAt  int
 	ShortAt int
 	Err     error
+	// Edges (C10): about 1 in 64 reads of >= 16 bytes comes back with 1-3 leading zero bytes, i.e.
+	// a value whose encoding is short. Decided by a hash of (key, read ordinal): replayable.
+	Edges     bool
+	EdgeReads int
 }
 
 func NewDRBG(parts ...string) *DRBG {
@@ -115,6 +119,19 @@ func (d *DRBG) Read(p []byte) (int, error) {
 		out = out[c:]
 	}
 	d.Bytes += n
+	if d.Edges && n >= 16 {
+		var blk [41]byte
+		copy(blk[:32], d.key[:])
+		binary.BigEndian.PutUint64(blk[32:], uint64(d.Reads))
+		blk[40] = 0xed
+		h := sha256.Sum256(blk[:])
+		if h[0] < 4 {
+			for i := 0; i < 1+int(h[1]%3); i++ {
+				p[i] = 0
+			}
+			d.EdgeReads++
+		}
+	}
 	return n, nil
 }
 
@@ -156,6 +173,14 @@ type Stepper struct {
 	Reordered  int // releases where chosen index != 0
 	curNode    string
 	ExtraParks int
+	Edges      bool // entropy mode "edges" for every reader created afterwards
+	RaceMode   bool // no parking at all (race-detector runs)
+	// BeforeRelease (C19) is called with the ordinal of the parked read about to be served and its
+	// substream; it may inject a fault (make the read fail, cancel a context, sleep past a deadline).
+	BeforeRelease func(ord int, d *DRBG)
+	// IdleHook is called when the worker is not done and nothing is parked; returning true means the
+	// hook did something that may unblock the system (e.g. advanced the fake clock).
+	IdleHook func() bool
 }
 
 type StepOutcome struct {
@@ -173,13 +198,22 @@ type NodeRand struct {
 }
 
 func (st *Stepper) NewNodeRand(node, kind string) *NodeRand {
-	return &NodeRand{st: st, node: node, kind: kind, main: NewDRBG(st.Seed, node, kind, "main")}
+	r := &NodeRand{st: st, node: node, kind: kind, main: NewDRBG(st.Seed, node, kind, "main")}
+	r.main.Edges = st.Edges
+	return r
 }
 
 func (r *NodeRand) Main() *DRBG { return r.main }
 
 func (r *NodeRand) Read(p []byte) (int, error) {
 	st := r.st
+	if st.RaceMode {
+		// C09(b): real goroutines under the race detector; which goroutine gets which bytes is left
+		// to the Go scheduler on purpose
+		st.mu.Lock()
+		defer st.mu.Unlock()
+		return r.main.Read(p)
+	}
 	g := goid()
 	w := st.worker.Load()
 	if w == 0 || g == w {
@@ -220,44 +254,85 @@ func (st *Stepper) Run(f func()) StepOutcome {
 			return out
 		default:
 		}
-		st.mu.Lock()
-		parked := st.parked
-		st.mu.Unlock()
-		if len(parked) == 0 {
-			out.Deadlock = true
-			st.worker.Store(0)
-			return out
+		if st.ServeParked() {
+			continue
 		}
-		sort.SliceStable(parked, func(i, j int) bool { return parked[i].goid < parked[j].goid })
-		for _, p := range parked {
-			if _, ok := st.labels[p.goid]; !ok {
-				st.labels[p.goid] = st.nextLabel
-				st.nextLabel++
-			}
+		if st.IdleHook != nil && st.IdleHook() {
+			continue
 		}
-		idx := st.Ch.Pick(len(parked), func() int {
-			// mostly creation order, sometimes another goroutine first
-			if st.Ch.Rng().IntN(4) == 0 {
-				return st.Ch.Rng().IntN(len(parked))
-			}
-			return 0
-		})
-		if idx != 0 {
-			st.Reordered++
-		}
-		p := parked[idx]
-		st.mu.Lock()
-		st.parked = append(append([]*parkReq{}, parked[:idx]...), parked[idx+1:]...)
-		st.mu.Unlock()
-		key := fmt.Sprintf("%d/%s", st.labels[p.goid], p.kind)
-		d := st.subs[key]
-		if d == nil {
-			d = NewDRBG(st.Seed, p.kind, "sub", strconv.Itoa(st.stepNo), strconv.Itoa(st.labels[p.goid]))
-			st.subs[key] = d
-		}
-		st.ParkCount++
-		p.reply <- d
+		out.Deadlock = true
+		st.worker.Store(0)
+		return out
 	}
+}
+
+// BeginStep resets the per-step substream labelling (used by controllers that do not go through Run).
+func (st *Stepper) BeginStep() {
+	st.stepNo++
+	st.subs = map[string]*DRBG{}
+	st.labels = map[int64]int{}
+	st.nextLabel = 0
+}
+
+// SetWorker marks the calling goroutine as the one whose entropy reads are served directly.
+func (st *Stepper) SetWorker(on bool) {
+	if on {
+		st.worker.Store(goid())
+	} else {
+		st.worker.Store(0)
+	}
+}
+
+// ParkedCount reports how many entropy readers are parked right now.
+func (st *Stepper) ParkedCount() int {
+	st.mu.Lock()
+	defer st.mu.Unlock()
+	return len(st.parked)
+}
+
+// ServeParked releases one parked entropy reader (chosen by the Chooser among the readers sorted by
+// creation order) and returns false if none is parked. Must be called at a quiescent point.
+func (st *Stepper) ServeParked() bool {
+	st.mu.Lock()
+	parked := st.parked
+	st.mu.Unlock()
+	if len(parked) == 0 {
+		return false
+	}
+	sort.SliceStable(parked, func(i, j int) bool { return parked[i].goid < parked[j].goid })
+	for _, p := range parked {
+		if _, ok := st.labels[p.goid]; !ok {
+			st.labels[p.goid] = st.nextLabel
+			st.nextLabel++
+		}
+	}
+	idx := st.Ch.Pick(len(parked), func() int {
+		// mostly creation order, sometimes another goroutine first
+		if st.Ch.Rng().IntN(4) == 0 {
+			return st.Ch.Rng().IntN(len(parked))
+		}
+		return 0
+	})
+	if idx != 0 {
+		st.Reordered++
+	}
+	p := parked[idx]
+	st.mu.Lock()
+	st.parked = append(append([]*parkReq{}, parked[:idx]...), parked[idx+1:]...)
+	st.mu.Unlock()
+	key := fmt.Sprintf("%d/%s", st.labels[p.goid], p.kind)
+	d := st.subs[key]
+	if d == nil {
+		d = NewDRBG(st.Seed, p.kind, "sub", strconv.Itoa(st.stepNo), strconv.Itoa(st.labels[p.goid]))
+		d.Edges = st.Edges
+		st.subs[key] = d
+	}
+	st.ParkCount++
+	if st.BeforeRelease != nil {
+		st.BeforeRelease(st.ParkCount, d)
+	}
+	p.reply <- d
+	return true
 }
 
 // ---------------------------------------------------------------------------------------------
